@@ -452,6 +452,13 @@ void execute_assignment(StatementExecutor *executor, Interpreter &interpreter,
     if (node->left && node->left->node_type == ASTNodeType::AST_ARRAY_REF) {
         // 配列要素への代入
 
+        // The index expressions of the target are evaluated here: once, left
+        // to right, and before the right-hand side (source order). Every case
+        // below uses these values instead of evaluating the index expressions
+        // itself after the right-hand side.
+        const std::vector<int64_t> lhs_indices =
+            interpreter.extract_array_indices(node->left.get());
+
         // A function call on the right-hand side is NOT pre-evaluated here
         // "to see whether it returns a struct": the single evaluation below
         // ("右辺の評価") yields a struct return value as a struct TypedValue
@@ -481,8 +488,7 @@ void execute_assignment(StatementExecutor *executor, Interpreter &interpreter,
                     }
                 } else {
                     // 構造体変数を配列要素に代入
-                    std::vector<int64_t> indices =
-                        interpreter.extract_array_indices(node->left.get());
+                    std::vector<int64_t> indices = lhs_indices;
 
                     if (indices.empty()) {
                         throw std::runtime_error(
@@ -547,8 +553,7 @@ void execute_assignment(StatementExecutor *executor, Interpreter &interpreter,
                     }
                 } else {
                     // 配列要素（構造体）を別の配列要素に代入
-                    std::vector<int64_t> indices =
-                        interpreter.extract_array_indices(node->left.get());
+                    std::vector<int64_t> indices = lhs_indices;
 
                     if (indices.empty()) {
                         throw std::runtime_error(
@@ -585,8 +590,7 @@ void execute_assignment(StatementExecutor *executor, Interpreter &interpreter,
                 // 構造体戻り値を配列要素に代入 (tasks[0] = make_task())
                 std::string array_name =
                     interpreter.extract_array_name(node->left.get());
-                std::vector<int64_t> indices =
-                    interpreter.extract_array_indices(node->left.get());
+                std::vector<int64_t> indices = lhs_indices;
 
                 if (indices.empty()) {
                     throw std::runtime_error(
@@ -625,8 +629,7 @@ void execute_assignment(StatementExecutor *executor, Interpreter &interpreter,
                 // 構造体変数または構造体戻り値を配列要素に代入
                 std::string array_name =
                     interpreter.extract_array_name(node->left.get());
-                std::vector<int64_t> indices =
-                    interpreter.extract_array_indices(node->left.get());
+                std::vector<int64_t> indices = lhs_indices;
 
                 if (indices.empty()) {
                     throw std::runtime_error(
@@ -698,7 +701,10 @@ void execute_assignment(StatementExecutor *executor, Interpreter &interpreter,
                     "Invalid object reference in member array access");
             }
             std::string member_name = node->left->left->name;
-            int64_t index = interpreter.evaluate(node->left->array_index.get());
+            int64_t index =
+                lhs_indices.empty()
+                    ? interpreter.evaluate(node->left->array_index.get())
+                    : lhs_indices.back();
 
             // 右辺を評価
             if (node->right->node_type == ASTNodeType::AST_STRING_LITERAL) {
@@ -766,8 +772,12 @@ void execute_assignment(StatementExecutor *executor, Interpreter &interpreter,
                             "Null array_index in multidimensional access");
                     }
                     debug_msg(DebugMsgId::ARRAY_ELEMENT_EVAL_START);
+                    // refs and lhs_indices walk the same AST_ARRAY_REF chain
+                    size_t index_pos = static_cast<size_t>(it - refs.rbegin());
                     int64_t index =
-                        interpreter.evaluate((*it)->array_index.get());
+                        index_pos < lhs_indices.size()
+                            ? lhs_indices[index_pos]
+                            : interpreter.evaluate((*it)->array_index.get());
                     std::string index_str = std::to_string(index);
                     debug_msg(DebugMsgId::ARRAY_ELEMENT_EVAL_VALUE,
                               index_str.c_str());
@@ -803,8 +813,7 @@ void execute_assignment(StatementExecutor *executor, Interpreter &interpreter,
                 // 通常の多次元配列要素への代入
                 std::string var_name =
                     interpreter.extract_array_name(node->left.get());
-                std::vector<int64_t> indices =
-                    interpreter.extract_array_indices(node->left.get());
+                std::vector<int64_t> indices = lhs_indices;
 
                 Variable *var = interpreter.find_variable(var_name);
                 if (!var) {
@@ -832,7 +841,9 @@ void execute_assignment(StatementExecutor *executor, Interpreter &interpreter,
         } else {
             // 単一次元配列要素への代入
             int64_t index_value =
-                interpreter.evaluate(node->left->array_index.get());
+                lhs_indices.empty()
+                    ? interpreter.evaluate(node->left->array_index.get())
+                    : lhs_indices.back();
             int index = static_cast<int>(index_value);
 
             std::string var_name;
